@@ -20,6 +20,8 @@ Expectations
               formulas on ALL values (∞ − ∞, overflow), `NumHom.maxValue` for scaling, `∀ x, ¬NaN x`;
               `HalfAddLaws.half_double` / `.mid_ge` / `.mid_notNaN` WITHOUT the domain guard
               (overflow at `−max_value`, `∞ + (−∞)`; with `dom=moderate` they are `holds`);
+              `Round.add/mul/div[unguarded]` (the standard model WITHOUT its `InRange` guard: overflow,
+              underflow) and `Round.ofNat[k>N]` (odd `k` above `2⁵³`/`2²⁴`);
 * `observed`  everything that depends on whether the generated `Gen.average` is clamped from below
               (`if mean < least then least else mean`): the outcome is printed, never counted as
               unexpected, and summarised in `NOTE average-reducible`.
@@ -231,6 +233,27 @@ def halfAddLaws : List Law :=
   , law! "HalfAddLaws.mid_ge[derived,dom=all]", .fails,   -- a = b = t = −max_value
       fun _α g => check_HalfAddLaws_mid_ge gAll g.mid ]
 
+/-- `Round.Model val fin u lo hi N` (`Lemmas/RoundModel.lean`, THE STANDARD MODEL OF FLOATING-POINT
+ARITHMETIC, assumed by `Props/C02Rounding.lean`), instantiated as the file header of `RoundModel.lean`
+says (`fin` = finite, `val` = the exact value, `u = 2⁻⁵³/2⁻²⁴`, `lo` = min normal, `hi` = max finite,
+`N = 2⁵³/2²⁴`) and tested with EXACT dyadic arithmetic on the values (`LawsSample.Dy`).  The laws as stated
+(guard `InRange lo hi` on the exact result) `holds`; `[unguarded]` is the same statement without the
+`InRange` guard: `fails` (overflow to ±∞; for `mul`/`div` also underflow to a subnormal / to 0), i.e. the
+guard is necessary; `ofNat[k>N]` (odd `k` above `N`) `fails`: `N` cannot be enlarged. -/
+def roundModelLaws : List Law :=
+  [ law! "Round.consts", .holds, fun _α g => check_Round_consts (roundGrid g)
+  , law! "Round.add", .holds, fun _α g => check_Round_add true (roundGrid g)
+  , law! "Round.mul", .holds, fun _α g => check_Round_mul true (roundGrid g)
+  , law! "Round.div", .holds, fun _α g => check_Round_div true (roundGrid g)
+  , law! "Round.ofNat", .holds, fun α _g => check_Round_ofNat α (natKsLe α)
+  , law! "Round.ofNat[k>N]", .fails, fun α _g => check_Round_ofNat α (natKsGt α)
+  , law! "Round.half", .holds, fun α _g => check_Round_half α
+  , law! "Round.lt", .holds, fun _α g => check_Round_lt (roundGrid g)
+  , law! "Round.finNotNaN", .holds, fun _α g => check_Round_notNaN (roundGrid g)
+  , law! "Round.add[unguarded]", .fails, fun _α g => check_Round_add false (roundGrid g)
+  , law! "Round.mul[unguarded]", .fails, fun _α g => check_Round_mul false (roundGrid g)
+  , law! "Round.div[unguarded]", .fails, fun _α g => check_Round_div false (roundGrid g) ]
+
 /-- Prints the line; returns `(unexpected, failed)`. -/
 def report (name : String) (e : Expect) (width : Nat) (r : Res) : IO (Bool × Bool) := do
   let failed := r.failed != 0
@@ -253,7 +276,7 @@ def main (args : List String) : IO UInt32 := do
   IO.println s!"GRID width=32 full={g32.full.size} mid={g32.mid.size} g3={g32.g3.size} g4={g32.g4.size}"
   let mut unexpected := 0
   let mut avgRed := true
-  for l in laws ++ halfAddLaws do
+  for l in laws ++ halfAddLaws ++ roundModelLaws do
     for (w, run) in [(64, l.run64), (32, l.run32)] do
       match run with
       | none => pure ()
